@@ -29,8 +29,11 @@ CORRESPONDENCE = "model_views_detail (ExtArray.v m_* functions) vs the real view
 def collect_views(ca: pa.ChunkedArray, arr: NEA):
     """all views of the real object; returns (coq term of type views, python-side agreement, repr)"""
     n = len(arr)
-    labels = list(range(100, 100 + n))
-    s = pd.Series(arr, index=labels, name="n")
+    # labels that are not positions: a genuine RangeIndex with an offset and a step (what a row slice of a default-indexed
+    # frame carries), or the same labels as a plain integer index
+    idx = pd.RangeIndex(100, 100 + 3 * n, 3)
+    labels = list(idx)
+    s = pd.Series(arr, index=idx if n % 2 else labels, name="n")
     ordinal = {lab: i for i, lab in enumerate(labels)}
     names = [f.name for f in ca.type]
     st = ca.type
@@ -93,7 +96,7 @@ def collect_views(ca: pa.ChunkedArray, arr: NEA):
     v_flat2 = attempt(flat_series_view)
 
     def frame_view():
-        nf = NestedFrame({"base": list(range(n))}, index=labels)
+        nf = NestedFrame({"base": list(range(n))}, index=s.index)
         nf["n"] = s
         cols = []
         for c in names:
